@@ -223,6 +223,9 @@ func c14Paths(c *Case) {
 		}
 		p = xref.Path{Abs: true, Steps: []*xref.Step{xgen.DSlash(), {Axis: "child", Abbrev: "child", Test: xref.Test{Kind: "*"}, Preds: []xref.Expr{pred}}}}
 	}
+	if c.expensive(p, d) {
+		return
+	}
 	src := xref.Render(p)
 	prefixed, used := hasPrefixedTest(p)
 	det := func() map[string]interface{} {
